@@ -480,4 +480,223 @@ theorem mem_importedAddrs {self p a : Nat} {L : List Line} :
   · rintro ⟨hl, hps⟩
     exact ⟨_, hl, by simp [hps]⟩
 
+/-! ### priority order after importing an arbitrary file -/
+
+theorem mem_collapse {x : Nat} : ∀ {l : List Nat}, x ∈ l → x ∈ collapse l := by
+  intro l
+  induction l with
+  | nil => intro h; cases h
+  | cons a t ih =>
+    intro h
+    cases t with
+    | nil => exact h
+    | cons b t' =>
+      simp only [collapse]
+      by_cases hab : (a == b) = true
+      · simp only [hab, if_true]
+        have : a = b := by simpa using hab
+        rcases List.mem_cons.1 h with rfl | h
+        · exact ih (this ▸ List.mem_cons_self)
+        · exact ih h
+      · simp only [hab]
+        rcases List.mem_cons.1 h with rfl | h
+        · exact List.mem_cons_self
+        · exact List.mem_cons_of_mem _ (ih h)
+
+theorem contiguous_tail {p : Nat} {l : List Nat} (h : contiguous (p :: l) = true) : contiguous l = true := by
+  unfold contiguous at *
+  cases l with
+  | nil => rfl
+  | cons q t =>
+    simp only [collapse] at h
+    by_cases hpq : (p == q) = true
+    · rw [if_pos hpq] at h; exact h
+    · rw [if_neg hpq] at h
+      simp only [nodupNat, Bool.and_eq_true] at h
+      exact h.2
+
+theorem contiguous_head {p : Nat} {l : List Nat} (h : contiguous (p :: l) = true) (hp : p ∈ l) : ∃ r, l = p :: r := by
+  unfold contiguous at h
+  cases l with
+  | nil => cases hp
+  | cons q t =>
+    by_cases hpq : (p == q) = true
+    · exact ⟨t, by have : p = q := by simpa using hpq
+                   rw [this]⟩
+    · simp only [collapse] at h
+      rw [if_neg hpq] at h
+      have hm := mem_collapse hp
+      have hc : (collapse (q :: t)).contains p = true := by simpa using hm
+      simp only [nodupNat, hc, Bool.not_true, Bool.false_and] at h
+      cases h
+
+theorem lastIdx_cons_self (p a : Nat) (t : List Line) (i : Nat) (acc : Option Nat) :
+    lastIdx p (Line.full a p :: t) i acc = lastIdx p t (i + 1) (some i) := by
+  simp [lastIdx]
+
+theorem lastIdx_cons_other (p : Nat) (x : Line) (t : List Line) (i : Nat) (acc : Option Nat) (hx : ∀ a, x ≠ Line.full a p) :
+    lastIdx p (x :: t) i acc = lastIdx p t (i + 1) acc := by
+  simp only [lastIdx]
+  cases x with
+  | full a q =>
+    have : q ≠ p := fun h => hx a (by rw [h])
+    simp [this]
+  | _ => rfl
+
+theorem lastIdx_acc_irrel (p : Nat) : ∀ (l : List Line) (i : Nat) (acc1 acc2 : Option Nat), (∃ a, Line.full a p ∈ l) →
+    lastIdx p l i acc1 = lastIdx p l i acc2 := by
+  intro l
+  induction l with
+  | nil => intro i a1 a2 h; obtain ⟨a, h⟩ := h; cases h
+  | cons x t ih =>
+    intro i a1 a2 h
+    obtain ⟨a, h⟩ := h
+    by_cases hx : ∃ a', x = Line.full a' p
+    · obtain ⟨a', rfl⟩ := hx
+      rw [lastIdx_cons_self, lastIdx_cons_self]
+    · have hx' : ∀ a', x ≠ Line.full a' p := fun a' he => hx ⟨a', he⟩
+      rw [lastIdx_cons_other p x t i a1 hx', lastIdx_cons_other p x t i a2 hx']
+      rcases List.mem_cons.1 h with rfl | h
+      · exact absurd rfl (hx' a)
+      · exact ih (i + 1) a1 a2 ⟨a, h⟩
+
+theorem lastIdx_ge_or (p : Nat) : ∀ (l : List Line) (i : Nat) (acc : Option Nat) (b : Nat),
+    lastIdx p l i acc = some b → acc = some b ∨ i ≤ b := by
+  intro l
+  induction l with
+  | nil => intro i acc b h; exact Or.inl h
+  | cons x t ih =>
+    intro i acc b h
+    by_cases hx : ∃ a', x = Line.full a' p
+    · obtain ⟨a', rfl⟩ := hx
+      rw [lastIdx_cons_self] at h
+      rcases ih (i + 1) (some i) b h with h1 | h1
+      · cases h1; exact Or.inr (Nat.le_refl _)
+      · exact Or.inr (by omega)
+    · have hx' : ∀ a', x ≠ Line.full a' p := fun a' he => hx ⟨a', he⟩
+      rw [lastIdx_cons_other p x t i acc hx'] at h
+      rcases ih (i + 1) acc b h with h1 | h1
+      · exact Or.inl h1
+      · exact Or.inr (by omega)
+
+theorem lastIdx_ge (p : Nat) (l : List Line) (i b : Nat) (h : lastIdx p l i none = some b) : i ≤ b := by
+  rcases lastIdx_ge_or p l i none b h with h1 | h1
+  · cases h1
+  · exact h1
+
+def Rlast (L : List Line) (i : Nat) (p q : Nat) : Prop :=
+  ∃ a b, lastIdx p L i none = some a ∧ lastIdx q L i none = some b ∧ a < b
+
+theorem linePeers_cons_full {self a p : Nat} (t : List Line) (hp : p ≠ self) :
+    linePeers self (Line.full a p :: t) = p :: linePeers self t := by
+  simp [linePeers, List.filterMap_cons, hp]
+
+theorem linePeers_cons_other {self : Nat} (x : Line) (t : List Line) (hx : ∀ a p, x = Line.full a p → p = self) :
+    linePeers self (x :: t) = linePeers self t := by
+  unfold linePeers
+  rw [List.filterMap_cons]
+  cases x with
+  | full a p => have := hx a p rfl; subst this; simp
+  | _ => rfl
+
+theorem mem_linePeers {self p : Nat} : ∀ {L : List Line}, p ∈ linePeers self L ↔ p ≠ self ∧ ∃ a, Line.full a p ∈ L := by
+  intro L
+  unfold linePeers
+  rw [List.mem_filterMap]
+  constructor
+  · rintro ⟨l, hl, h⟩
+    cases l with
+    | full a q =>
+      by_cases hq : (q == self) = true
+      · simp [hq] at h
+      · simp only [hq] at h
+        cases h
+        exact ⟨by simpa using hq, a, hl⟩
+    | _ => cases h
+  · rintro ⟨hps, a, ha⟩
+    exact ⟨_, ha, by simp [hps]⟩
+
+theorem mem_dedupKeepFirst {x : Nat} : ∀ {l : List Nat}, x ∈ dedupKeepFirst l ↔ x ∈ l := by
+  intro l
+  induction l with
+  | nil => simp [dedupKeepFirst]
+  | cons a t ih =>
+    simp only [dedupKeepFirst, List.mem_cons, List.mem_filter, ih, bne_iff_ne, ne_eq]
+    constructor
+    · rintro (h | ⟨h, _⟩)
+      · exact Or.inl h
+      · exact Or.inr h
+    · rintro (h | h)
+      · exact Or.inl h
+      · by_cases hxa : x = a
+        · exact Or.inl hxa
+        · exact Or.inr ⟨h, hxa⟩
+
+/-- peers in the order of their first line have increasing last-line indices when every peer's lines are adjacent -/
+theorem dedup_prio_increasing (self : Nat) : ∀ (L : List Line) (i : Nat), contiguous (linePeers self L) = true →
+    (dedupKeepFirst (linePeers self L)).Pairwise (Rlast L i) := by
+  intro L
+  induction L with
+  | nil => intro i _; exact List.Pairwise.nil
+  | cons x t ih =>
+    intro i hc
+    by_cases hx : ∃ a p0, x = Line.full a p0 ∧ p0 ≠ self
+    · obtain ⟨a, p0, rfl, hp0⟩ := hx
+      rw [linePeers_cons_full t hp0] at hc ⊢
+      have iht := ih (i + 1) (contiguous_tail hc)
+      simp only [dedupKeepFirst]
+      have hother : ∀ q, q ≠ p0 → lastIdx q (Line.full a p0 :: t) i none = lastIdx q t (i + 1) none := by
+        intro q hq
+        apply lastIdx_cons_other
+        intro a' he
+        injection he with _ h2
+        exact hq h2.symm
+      rw [List.pairwise_cons]
+      constructor
+      · intro q hq
+        rw [List.mem_filter] at hq
+        obtain ⟨hqD, hqne⟩ := hq
+        have hqne' : q ≠ p0 := by simpa using hqne
+        have hqS : q ∈ linePeers self t := mem_dedupKeepFirst.1 hqD
+        obtain ⟨_, aq, haq⟩ := mem_linePeers.1 hqS
+        obtain ⟨b, hb⟩ := Option.isSome_iff_exists.1 (lastIdx_isSome_of_mem q aq t (i + 1) none haq)
+        have hbge := lastIdx_ge q t (i + 1) b hb
+        by_cases hin : p0 ∈ linePeers self t
+        · obtain ⟨r, hr⟩ := contiguous_head hc hin
+          rw [hr] at iht hqD
+          simp only [dedupKeepFirst] at iht hqD
+          rw [List.pairwise_cons] at iht
+          rcases List.mem_cons.1 hqD with h | h
+          · exact absurd h hqne'
+          · obtain ⟨a1, b1, h1, h2, h3⟩ := iht.1 q h
+            obtain ⟨_, ap, hap⟩ := mem_linePeers.1 hin
+            refine ⟨a1, b1, ?_, ?_, h3⟩
+            · rw [lastIdx_cons_self, lastIdx_acc_irrel p0 t (i + 1) (some i) none ⟨ap, hap⟩]; exact h1
+            · rw [hother q hqne']; exact h2
+        · have habs : ∀ a', Line.full a' p0 ∉ t := fun a' ha' => hin (mem_linePeers.2 ⟨hp0, a', ha'⟩)
+          refine ⟨i, b, ?_, ?_, by omega⟩
+          · rw [lastIdx_cons_self, lastIdx_absent p0 t (i + 1) (some i) habs]
+          · rw [hother q hqne']; exact hb
+      · have hsub : ((dedupKeepFirst (linePeers self t)).filter (· != p0)).Pairwise (Rlast t (i + 1)) :=
+          List.Pairwise.sublist List.filter_sublist iht
+        refine List.Pairwise.imp_of_mem ?_ hsub
+        intro p q hp hq ⟨a1, b1, h1, h2, h3⟩
+        have hpne : p ≠ p0 := by simpa using (List.mem_filter.1 hp).2
+        have hqne : q ≠ p0 := by simpa using (List.mem_filter.1 hq).2
+        exact ⟨a1, b1, by rw [hother p hpne]; exact h1, by rw [hother q hqne]; exact h2, h3⟩
+    · have hx' : ∀ a p, x = Line.full a p → p = self := by
+        intro a p he
+        by_contra hne
+        exact hx ⟨a, p, he, hne⟩
+      rw [linePeers_cons_other x t hx'] at hc ⊢
+      have iht := ih (i + 1) hc
+      refine List.Pairwise.imp_of_mem ?_ iht
+      intro p q hp hq ⟨a1, b1, h1, h2, h3⟩
+      have hne : ∀ r, r ∈ dedupKeepFirst (linePeers self t) → ∀ a', x ≠ Line.full a' r := by
+        intro r hr a' he
+        have := hx' a' r he
+        exact (mem_linePeers.1 (mem_dedupKeepFirst.1 hr)).1 this
+      exact ⟨a1, b1, by rw [lastIdx_cons_other p x t i none (hne p hp)]; exact h1,
+        by rw [lastIdx_cons_other q x t i none (hne q hq)]; exact h2, h3⟩
+
 end CV.C14
